@@ -74,6 +74,7 @@ impl Oracle {
             canary: false,
             clock: None,
             pid: None,
+            reuse_config: false,
         };
         let run = run_node(scratch, bins, &spec);
         let res = match run.verdict() {
